@@ -80,9 +80,20 @@ type blocks interface {
 	Contains(int) bool
 }
 
+// iterAll drains an iterator, but never more than iterCap values: a defect in the code under test
+// (a wrong cached end, a wrong length) must not turn the driver into an enumeration of 2^60 frames.
+// A truncated list ends in the sentinel iterTruncated, which no oracle expects.
+const (
+	iterCap       = 1 << 20
+	iterTruncated = -987654321987654321
+)
+
 func iterAll(it ranges.Iterator) []int {
 	var out []int
 	for !it.IsDone() {
+		if len(out) >= iterCap {
+			return append(out, iterTruncated)
+		}
 		out = append(out, it.Next())
 	}
 	return out
@@ -387,13 +398,17 @@ func dispatch(op string, a []string) string {
 			}
 			fmt.Fprintf(&rb, " rvalue=%s", strings.Join(vs, ","))
 			mn, mx := r.Min(), r.Max()
-			var idx []int
-			var hs strings.Builder
-			for v := mn - 2; v < mx+3; v++ {
-				idx = append(idx, r.Index(v))
-				hs.WriteString(b01(r.Contains(v)))
+			if mx-mn <= 1<<20 && mx-mn >= 0 {
+				var idx []int
+				var hs strings.Builder
+				for v := mn - 2; v < mx+3; v++ {
+					idx = append(idx, r.Index(v))
+					hs.WriteString(b01(r.Contains(v)))
+				}
+				fmt.Fprintf(&rb, " rindex=%s rhas=%s", zlist(idx), hs.String())
+			} else {
+				rb.WriteString(" rindex=SPAN-TOO-WIDE rhas=SPAN-TOO-WIDE")
 			}
-			fmt.Fprintf(&rb, " rindex=%s rhas=%s", zlist(idx), hs.String())
 		}
 		return rb.String() + probeRanges(rs)
 	case "rs":
